@@ -51,7 +51,7 @@ var srcC08 = []*g2lTarget{
 		callSubst: c08CallSubst(map[string]string{"validateRegistryScopeFormat": "validFmt"}),
 	},
 	{
-		file: c08OCI, recv: "OCIDocument", fn: "GetApplicableTrustPolicy", leanName: "OCIDocument.GetApplicableTrustPolicy",
+		file: c08OCI, recv: "OCIDocument", fn: "GetApplicableTrustPolicy", recvName: "policyDoc", leanName: "OCIDocument.GetApplicableTrustPolicy",
 		params: "(validFmt : String → Option GoLite.Err) (policyDoc : OCIDocument) (artifactReference : String)",
 		ret:    "Option OCITrustPolicy × Option GoLite.Err", retOpt: []bool{true, true},
 		optVars:   []string{"err"},
@@ -59,14 +59,14 @@ var srcC08 = []*g2lTarget{
 		callSubst: c08CallSubst(map[string]string{"getArtifactPathFromReference": "getArtifactPathFromReference validFmt"}),
 	},
 	{
-		file: c08Blob, recv: "BlobDocument", fn: "GetApplicableTrustPolicy", leanName: "BlobDocument.GetApplicableTrustPolicy",
+		file: c08Blob, recv: "BlobDocument", fn: "GetApplicableTrustPolicy", recvName: "policyDoc", leanName: "BlobDocument.GetApplicableTrustPolicy",
 		params: "(policyDoc : BlobDocument) (policyName : String)",
 		ret:    "Option BlobTrustPolicy × Option GoLite.Err", retOpt: []bool{true, true},
 		subst:     c08Subst,
 		callSubst: c08CallSubst(nil),
 	},
 	{
-		file: c08Blob, recv: "BlobDocument", fn: "GetGlobalTrustPolicy", leanName: "BlobDocument.GetGlobalTrustPolicy",
+		file: c08Blob, recv: "BlobDocument", fn: "GetGlobalTrustPolicy", recvName: "policyDoc", leanName: "BlobDocument.GetGlobalTrustPolicy",
 		params: "(policyDoc : BlobDocument)",
 		ret:    "Option BlobTrustPolicy × Option GoLite.Err", retOpt: []bool{true, true},
 		subst:     c08Subst,
